@@ -400,6 +400,21 @@ pub fn gen_changes(rng: &mut verif_common::Rng, n: usize, bad_rate: u64, danglin
         if parents.len() > 3 {
             parents.truncate(3);
         }
+        // redundant parents: a change may list a commit AND one of that commit's ancestors (grand-parent, root);
+        // honest `update` never does (it uses an antichain of tips) but any peer can store such a parent list
+        if rng.chance(1, 4) {
+            if let Some(Some(p)) = parents.iter().find(|p| p.is_some()).copied() {
+                let anc: Vec<usize> = closure(&chs, &[Some(p)]).into_iter().filter(|a| *a != p && !parents.contains(&Some(*a))).collect();
+                if !anc.is_empty() {
+                    let a = match rng.below(3) {
+                        0 => anc[0],                       // the root
+                        1 => *anc.last().unwrap(),         // a near ancestor
+                        _ => *rng.pick(&anc),
+                    };
+                    if rng.bool() { parents.push(Some(a)) } else { parents.insert(0, Some(a)) }
+                }
+            }
+        }
         if dangling && rng.chance(1, 12) {
             if rng.bool() { parents.push(None) } else { parents = vec![None] }
         }
